@@ -279,4 +279,15 @@ func (*LastValueAggregatorFunction).Reset
   props C03
   modifies f.lastValue
   ensures no-state-leaks: f.lastValue == nil
+
+// ---- deduplicate
+func (*DeduplicateAggregatorFunction).New
+  props C03
+  ensures hasType(result, *DeduplicateAggregatorFunction) && fresh(unbox(result, *DeduplicateAggregatorFunction))
+  ensures own-empty-state: fresh(unbox(result, *DeduplicateAggregatorFunction).seen) && len(unbox(result, *DeduplicateAggregatorFunction).values) == 0 && forallv(k, "", !dom(unbox(result, *DeduplicateAggregatorFunction).seen, k))
+
+func (*DeduplicateAggregatorFunction).Reset
+  props C03
+  modifies f.seen, f.values
+  ensures no-state-leaks: fresh(f.seen) && len(f.values) == 0 && forallv(k, "", !dom(f.seen, k))
 @*/
